@@ -8,9 +8,14 @@
 
    1. every one of them is derived from [Reachable w] + the standard guard
       ([w_coll w = false], [SmallStore (w_objs w)]) + [files_load w] (both
-      configuration files and .goitignore read — the one thing about the world
-      that reachability does not give; counterexample in section 7), and the
-      theorems are restated with those hypotheses only ([C10_*']);
+      configuration files and .goitignore read), and the theorems are restated
+      with those hypotheses only ([C10_*']).  Since `config` refuses the
+      arguments that would write an unloadable file, the two configuration
+      files of a reachable world always load (CtxFacts.reachable_cfgs_load):
+      [files_load w] is then the single condition [ignore_loads w] — the user's
+      own .goitignore is in the model's alphabet — the one thing about the
+      world that reachability does not give (counterexample in section 7);
+      restated once more with that condition ([*''], [branch_history_*']);
    2. specification lemmas for the abstract operations: [a_switch_create_spec]
       (missing so far), complete characterisations [a_*_char] (the am_get
       description DETERMINES the result on sorted maps), definedness
@@ -25,7 +30,7 @@ From Coq Require Import Strings.String Strings.Byte.
 From Coq Require Import List Bool NArith ZArith Arith Lia ZifyBool ZifyNat ZifyN Sorted.
 From Goit Require Import Bytes Sha1 Obj Refs Tree Index Regex GoRegex Commit Reflog Config Ignore World Repo.
 From Goit Require Import BytesFacts ObjFacts RegexFacts MonadFacts BranchFacts Inv.
-From Goit Require ConnectedFacts SnapshotFacts GateFacts.
+From Goit Require ConnectedFacts SnapshotFacts GateFacts ConfigCmdFacts CtxFacts.
 Import ListNotations.
 
 Arguments sha1 : simpl never.
@@ -137,6 +142,30 @@ Theorem reachable_ctx_loads : forall w,
   exists x, ctx_of w = Some x.
 Proof.
   intros w Hr Hc Hs Hf. apply files_load_ctx; [exact Hf|]. apply reachable_refs_commits_ok; assumption.
+Qed.
+
+(* on a reachable world the two configuration files always load (`config`
+   refuses an empty section name and line feeds): [files_load] is the single
+   condition that the user's own .goitignore reads *)
+Definition ignore_loads (w : world) : Prop :=
+  ign_load (am_get (w_files w) (str ".goitignore"%string)) <> None.
+
+Theorem reachable_files_load : forall w, Reachable w -> ignore_loads w -> files_load w.
+Proof.
+  intros w Hr Hp. destruct (CtxFacts.reachable_cfgs_load_neq w Hr) as [Hl Hg].
+  split; [exact Hg|]. split; [exact Hl | exact Hp].
+Qed.
+
+Theorem reachable_files_load_iff : forall w, Reachable w -> (files_load w <-> ignore_loads w).
+Proof.
+  intros w Hr. split; [intros (_ & _ & Hp); exact Hp | apply reachable_files_load; exact Hr].
+Qed.
+
+Theorem reachable_ctx_loads' : forall w,
+  Reachable w -> w_coll w = false -> SmallStore (w_objs w) -> ignore_loads w ->
+  exists x, ctx_of w = Some x.
+Proof.
+  intros w Hr Hc Hs Hp. apply reachable_ctx_loads; try assumption. apply reachable_files_load; assumption.
 Qed.
 
 (* ---------- the abstract operations where there is no branch ---------- *)
@@ -296,6 +325,77 @@ Section Primed.
     intros e args Hi Hf. destruct (files_load_ctx w Hf Hok) as [x Hx]. exact (rev_parse_reports e args w x Hi Hx).
   Qed.
 End Primed.
+
+(* the same with [files_load w] replaced by the one condition that is left *)
+Section Primed2.
+  Variables (w : world).
+  Hypothesis (Hr : Reachable w) (Hc : w_coll w = false) (Hs : SmallStore (w_objs w)).
+  Hypothesis (Hp : ign_load (am_get (w_files w) (str ".goitignore"%string)) <> None).
+
+  Let Hf : files_load w := reachable_files_load w Hr Hp.
+
+  Theorem branch_create_refines'' : forall e name w' o tr,
+    step (ACmd e (CBranch [name] false [] [])) w = (w', o, tr) ->
+    match a_branch name (abs w) with
+    | Some s' => o = OOk [] /\ abs w' = s' /\ frame w w'
+    | None => o = OErr /\ tr = [] /\ w' = w
+    end.
+  Proof. intros e name w' o tr. exact (branch_create_refines' w Hr Hc Hs e name w' o tr Hf). Qed.
+
+  Theorem branch_delete_refines'' : forall e d w' o tr,
+    is_nil d = false ->
+    step (ACmd e (CBranch [] false [] d)) w = (w', o, tr) ->
+    match a_delete d (abs w) with
+    | Some s' => o = OOk [] /\ abs w' = s' /\ frame w w'
+    | None => o = OErr /\ tr = [] /\ w' = w
+    end.
+  Proof. intros e d w' o tr. exact (branch_delete_refines' w Hr Hc Hs e d w' o tr Hf). Qed.
+
+  Theorem branch_rename_refines'' : forall e new w' o tr,
+    is_nil new = false ->
+    step (ACmd e (CBranch [] false new [])) w = (w', o, tr) ->
+    match a_rename new (abs w) with
+    | Some s' => o = OOk [] /\ abs w' = s' /\ frame w w'
+    | None => o = OErr /\ tr = [] /\ w' = w
+    end.
+  Proof. intros e new w' o tr. exact (branch_rename_refines' w Hr Hc Hs e new w' o tr Hf). Qed.
+
+  Theorem switch_refines'' : forall e a w' o tr,
+    step (ACmd e (CSwitch [a] [])) w = (w', o, tr) ->
+    match a_switch a (abs w) with
+    | Some s' => o = OOk [] /\ abs w' = s' /\ frame w w'
+    | None => o = OErr /\ tr = [] /\ w' = w
+    end.
+  Proof. intros e a w' o tr. exact (switch_refines' w Hr Hc Hs e a w' o tr Hf). Qed.
+
+  Theorem switch_create_refines'' : forall e name w' o tr,
+    is_nil name = false ->
+    step (ACmd e (CSwitch [] name)) w = (w', o, tr) ->
+    match a_switch_create name (abs w) with
+    | Some s' => o = OOk [] /\ abs w' = s' /\ frame w w'
+    | None => o = OErr /\ tr = [] /\ w' = w
+    end.
+  Proof. intros e name w' o tr. exact (switch_create_refines' w Hr Hc Hs e name w' o tr Hf). Qed.
+
+  Theorem update_ref_refines'' : forall e r h w' o tr,
+    step (ACmd e (CUpdateRef [r; h])) w = (w', o, tr) ->
+    match a_update_ref (commit_loads w) r h (abs w) with
+    | Some s' => o = OOk [] /\ abs w' = s' /\ frame w w'
+    | None => o = OErr /\ tr = [] /\ w' = w
+    end.
+  Proof. intros e r h w' o tr. exact (update_ref_refines' w Hr Hc Hs e r h w' o tr Hf). Qed.
+
+  Theorem branch_list_reports'' : forall e,
+    w_inited w = true ->
+    step (ACmd e (CBranch [] true [] [])) w = (w, OOk (branch_listing w), []).
+  Proof. intros e Hi. exact (branch_list_reports' w Hr Hc Hs e Hi Hf). Qed.
+
+  Theorem rev_parse_reports'' : forall e args,
+    w_inited w = true ->
+    step (ACmd e (CRevParse args)) w
+    = (w, match rev_parse_out w args with Some out => OOk out | None => OErr end, []).
+  Proof. intros e args Hi. exact (rev_parse_reports' w Hr Hc Hs e args Hi Hf). Qed.
+End Primed2.
 
 (* ================================================================== *)
 (** * 3. Specifications of the abstract operations *)
@@ -798,6 +898,20 @@ Proof.
   exact (family_step_refines e c w x w' o tr Hfam Hi Hx (reachable_blogs_cover_refs w Hr) Hok Hstep).
 Qed.
 
+Theorem family_step_refines'' : forall e c w w' o tr,
+  Reachable w -> w_coll w = false -> SmallStore (w_objs w) ->
+  branch_family c -> w_inited w = true ->
+  ign_load (am_get (w_files w) (str ".goitignore"%string)) <> None ->
+  step (ACmd e c) w = (w', o, tr) ->
+  match a_cmd (commit_loads w) c (abs w) with
+  | Some s' => o = OOk (a_print c (abs w)) /\ abs w' = s' /\ frame w w'
+  | None => o = OErr /\ tr = [] /\ w' = w
+  end.
+Proof.
+  intros e c w w' o tr Hr Hc Hs Hfam Hi Hp.
+  exact (family_step_refines' e c w w' o tr Hr Hc Hs Hfam Hi (reachable_files_load w Hr Hp)).
+Qed.
+
 (* the state part needs no [w_inited]: before `init` both sides stand still *)
 Theorem family_step_abs : forall e c w,
   Reachable w -> w_coll w = false -> SmallStore (w_objs w) ->
@@ -877,6 +991,15 @@ Proof.
     exact (frame_trans _ _ _ Hfr IHf).
 Qed.
 
+Theorem branch_history_refines' : forall h w,
+  Reachable w -> w_coll w = false -> SmallStore (w_objs w) ->
+  ign_load (am_get (w_files w) (str ".goitignore"%string)) <> None ->
+  Forall family_action h ->
+  abs (run h w) = a_run (commit_loads w) h (abs w) /\ frame w (run h w).
+Proof.
+  intros h w Hr Hc Hs Hp. exact (branch_history_refines h w Hr Hc Hs (reachable_files_load w Hr Hp)).
+Qed.
+
 (* the invariants of the branch map hold of the abstract run as well *)
 Lemma a_run_sorted : forall loads h s, am_sorted (snd s) -> am_sorted (snd (a_run loads h s)).
 Proof.
@@ -897,6 +1020,19 @@ Proof.
   assert (Hr : Reachable (run h0 w_empty)) by (exists h0; split; [exact Hall | reflexivity]).
   assert (E : run (h0 ++ h) w_empty = run h (run h0 w_empty)) by (unfold run; apply fold_left_app).
   rewrite E. exact (branch_history_refines h (run h0 w_empty) Hr Hc Hs Hf Hfam).
+Qed.
+
+Corollary branch_history_refines_empty' : forall h0 h,
+  Forall action_ok h0 ->
+  w_coll (run h0 w_empty) = false -> SmallStore (w_objs (run h0 w_empty)) ->
+  ign_load (am_get (w_files (run h0 w_empty)) (str ".goitignore"%string)) <> None ->
+  Forall family_action h ->
+  abs (run (h0 ++ h) w_empty)
+  = a_run (commit_loads (run h0 w_empty)) h (abs (run h0 w_empty)) /\
+  frame (run h0 w_empty) (run (h0 ++ h) w_empty).
+Proof.
+  intros h0 h Hall Hc Hs Hp Hfam. apply branch_history_refines_empty; try assumption.
+  apply reachable_files_load; [exists h0; split; [exact Hall | reflexivity] | exact Hp].
 Qed.
 
 (* ---------- every answer along the way ---------- *)
@@ -935,6 +1071,17 @@ Proof.
   destruct (family_step_keeps e c w Hr Hc Hs Ha Hf) as (Hr' & Hc' & Hs' & Hf' & Hl' & Hi').
   rewrite Hans. f_equal.
   rewrite (IH (step_w (ACmd e c) w) Hr' Hc' Hs' (eq_trans Hi' Hi) Hf' Hh), Hl', Habs. reflexivity.
+Qed.
+
+Theorem branch_history_observable' : forall h w,
+  Reachable w -> w_coll w = false -> SmallStore (w_objs w) ->
+  w_inited w = true ->
+  ign_load (am_get (w_files w) (str ".goitignore"%string)) <> None ->
+  Forall family_action h ->
+  outcomes h w = a_outcomes (commit_loads w) h (abs w).
+Proof.
+  intros h w Hr Hc Hs Hi Hp.
+  exact (branch_history_observable h w Hr Hc Hs Hi (reachable_files_load w Hr Hp)).
 Qed.
 
 Lemma a_answer_not_panic : forall loads c s, a_answer loads c s <> OPanic.
@@ -1060,15 +1207,18 @@ Section Examples.
   Proof. vm_compute. reflexivity. Qed.
 
   (* ---------- [files_load] cannot be dropped ---------- *)
-  (* `config user.name` with a newline in the value writes a configuration file
-     the loader rejects (ConfigCmdFacts.ex_newline_breaks_config): the world is
-     reachable, the guard holds, the abstract [switch] is defined — and the
-     command is refused, like every other one.  So the statements of section 2
-     with [Reachable] and the guard alone are FALSE; what is missing is exactly
-     [files_load]. *)
+  (* A .goitignore line outside the alphabet of Ignore.v (a comment line) makes
+     the ignore file unreadable for the model (CtxFacts.cx_ignore_breaks_ctx):
+     the world is reachable, the guard holds, both configuration files load,
+     the abstract [switch] is defined — and the command is refused, like every
+     other one.  So the statements of section 2 with [Reachable] and the guard
+     alone are FALSE; what is missing is exactly [files_load], that is — the
+     configuration files of a reachable world always load — [ignore_loads].
+     (The former witness, `config user.name "a\nb"`, is refused since the
+     repair of `config`: [cx_old_witness_refused].) *)
   Definition cx_hist : list action :=
     bx_base ++ [cmd_ (CBranch [str "dev"] false [] []);
-                cmd_ (CConfig false [str "user.name"; [x61; x0a; x62]])].
+                AEdit (UWrite (str ".goitignore") (str "# comment" ++ [x0a])%list)].
   Definition cx_w := Eval vm_compute in run cx_hist w_empty.
   Lemma cx_w_run : run cx_hist w_empty = cx_w.
   Proof. vm_compute. reflexivity. Qed.
@@ -1083,13 +1233,32 @@ Section Examples.
     - vm_compute. reflexivity.
   Qed.
 
-  Example cx_files_do_not_load : ~ files_load cx_w.
-  Proof. intros (_ & Hl & _). apply Hl. vm_compute. reflexivity. Qed.
+  Example cx_files_do_not_load :
+    ~ files_load cx_w /\ ~ ignore_loads cx_w /\
+    cfg_of (w_gcfg cx_w) <> None /\ cfg_of (w_lcfg cx_w) <> None /\
+    ign_line (str "# comment") = None.
+  Proof.
+    assert (Hn : ign_load (am_get (w_files cx_w) (str ".goitignore")) = None) by (vm_compute; reflexivity).
+    split; [intros (_ & _ & Hp); exact (Hp Hn)|].
+    split; [intro Hp; exact (Hp Hn)|].
+    split; [vm_compute; discriminate|].
+    split; [vm_compute; discriminate | vm_compute; reflexivity].
+  Qed.
 
   Example cx_switch_defined_but_refused :
     a_switch (str "dev") (abs cx_w) = Some (str "dev", w_refs cx_w) /\
     step (cmd_ (CSwitch [str "dev"] [])) cx_w = (cx_w, OErr, []).
   Proof. split; vm_compute; reflexivity. Qed.
+
+  (* the former witness: the `config` call is refused, the files still load *)
+  Example cx_old_witness_refused :
+    let w1 := run (bx_base ++ [cmd_ (CBranch [str "dev"] false [] [])]) w_empty in
+    step (cmd_ (CConfig false [str "user.name"; [x61; x0a; x62]])) w1 = (w1, OErr, []) /\
+    files_load w1.
+  Proof.
+    split; [vm_compute; reflexivity|].
+    unfold files_load. repeat split; vm_compute; discriminate.
+  Qed.
 
   (* the refused-changes-nothing theorem, which does not ask for [files_load], applies *)
   Example cx_refused_unchanged : forall c w' tr,
@@ -1126,6 +1295,15 @@ Print Assumptions a_rename_spec_reachable.
 Print Assumptions a_update_ref_spec_reachable.
 Print Assumptions family_step_refines.
 Print Assumptions family_step_refines'.
+Print Assumptions reachable_files_load.
+Print Assumptions family_step_refines''.
+Print Assumptions branch_history_refines'.
+Print Assumptions branch_history_refines_empty'.
+Print Assumptions branch_history_observable'.
+Print Assumptions switch_refines''.
+Print Assumptions update_ref_refines''.
+Print Assumptions cx_files_do_not_load.
+Print Assumptions cx_old_witness_refused.
 Print Assumptions family_step_abs.
 Print Assumptions branch_history_refines.
 Print Assumptions branch_history_refines_empty.
